@@ -47,6 +47,10 @@ impl<N, E> StableGraph<N, E> {
         requires old(self).nodes().contains(a), old(self).nodes().contains(b)
         ensures final(self).nodes() == old(self).nodes(), final(self).edges() == old(self).edges().insert((a, b), w) { unimplemented!() }
     #[verifier::external_body]
+    pub fn update_edge(&mut self, a: NodeIndex<u32>, b: NodeIndex<u32>, w: E) -> (r: EdgeIndex<u32>)
+        requires old(self).nodes().contains(a), old(self).nodes().contains(b)
+        ensures final(self).nodes() == old(self).nodes(), final(self).edges() == old(self).edges().insert((a, b), w) { unimplemented!() }
+    #[verifier::external_body]
     pub fn neighbors(&self, a: NodeIndex<u32>) -> (r: Vec<NodeIndex<u32>>)
         ensures forall|t: NodeIndex<u32>| r@.contains(t) <==> self.edges().contains_key((a, t)) { unimplemented!() }
     #[verifier::external_body]
